@@ -523,6 +523,15 @@ def wbem_request(conn, req_data, cimxml_headers, target_type='server'):
             f"requests raised an urllib3 exception {type(exc)} directly",
             RequestExceptionWarning, 1)
         raise pywbem_urllib3_exception(exc, conn)
+    except ValueError as exc:
+        # requests follows HTTP redirects and lets the ValueError of
+        # urllib.parse through when the Location header field is not a
+        # valid URL (e.g. "http://[::1" -> "Invalid IPv6 URL").
+        new_exc = ConnectionError(
+            f"Invalid URL in HTTP request or HTTP redirect: {exc}",
+            conn_id=conn.conn_id)
+        new_exc.__cause__ = None
+        raise new_exc
 
     if target_type == 'server':
         # Get the optional response time header
